@@ -199,6 +199,17 @@ def engine(name, projector, n_quick, n_thorough, **kw):
 
 
 PROPS = {
+    'C14': dict(
+        engines=[engine('buffer', lambda: AllProj(lambda k, op, b: ('spill=1' in b) or ('tl' in b) or k != 'buf'), 60, 3000)],
+        rule="engine buffer: (1) exhaustive small scope on every run - every buffer-memory 0..5 x max-bytes 0..6 x every composition of every "
+             "total 0..6 into write chunks (0..8 x 0..9 x totals 0..9 in the thorough tier) against the real Buffer: per-write result, overflow "
+             "flag, bytes held in memory, spill file created, delivered bytes, spill removed on Close (twice); (2) request buffering through a "
+             "real Target to an in-memory target with chunked bodies around the limits; (3) the response buffering middleware under scripted "
+             "handler traces (informational headers, event streams, hijack, writes before the header, flushes, panic/abort after a spill). A "
+             "private TMPDIR is listed after every operation. Non-trivial = a spill, an overflow or a middleware run.",
+        assumptions=["sizes are non-negative", "the wrapped handler (httputil.ReverseProxy) closes the request body it is handed unless "
+                     "ContentLength == 0 - checked by the leftover count of the request-buffering runs through the real Target"],
+    ),
     'C16': dict(
         engines=[control(C16Proj, 200, 8000)],
         rule=RULE_CONTROL + "for C16 when a request is answered 301 or 503 by the TLS policy or a certificate query succeeds; requests are "
